@@ -137,6 +137,10 @@ class Distribution(DistributionModel):
         if len(x_shape) > len(self.batch_shape):
             offset = 1 if len(self.batch_shape) == 0 else len(self.batch_shape)
             return x_shape[:-offset]
+        elif len(x_shape) == len(self.batch_shape):
+            # the parameters of the distribution carry the same sample
+            # dimensions as x (e.g. sampled hyperparameters)
+            return x_shape[:-1]
         else:
             # the distribution is a likelihood term
             return self.batch_shape[: -len(x_shape)]
